@@ -467,6 +467,13 @@ def fam_c04(tier, seed):
             for y in (2023, 2024):
                 sks.append(mk(i, "y", l, base=b, wit=WIT, year=y)); i += 1
             sks.append(mk(i, "x", l, base=b, wit=WIT, variant="missing")); i += 1
+    # exemption table loaded the way the CLI does: embedded table plus override files (./config.toml, ~/.config/cgt-tool/config.toml)
+    # that replace embedded years (2023, 2024) or add one (2026); amounts in the files are symbolic
+    led = [["B", "A", 0], ["S", "A", 1], ["S", "A", 31]]
+    for ov in (dict(cwd_ov=[2023]), dict(home_ov=[2023]), dict(cwd_ov=[2023, 2024]), dict(cwd_ov=[2024], home_ov=[2023]),
+               dict(cwd_ov=[2026]), dict(home_ov=[2026]), dict(cwd_ov=[2023, 2026]), dict(cwd_ov=[2026], home_ov=[2024]), dict()):
+        sks.append(mk(i, "o", led, base=BASES[2], wit=1, variant="override", **ov)); i += 1
+        sks.append(mk(i, "o", led[:2], base="2026-06-01", wit=1, variant="override", **ov)); i += 1
     return sks
 
 
